@@ -6,3 +6,5 @@ INVARIANT StackIsCreatorChain
 INVARIANT CaughtMeansValue
 INVARIANT EveryLevelProbed
 INVARIANT Export
+INVARIANT OwnTasksOnly
+INVARIANT IdleBetweenComputations
